@@ -86,7 +86,10 @@ ASSUMPTIONS = [
     'op Stream is not generated (the channels would share one stream).',
     'An operator name a kind overrides with another meaning (Operand.__eq__, '
     'ChannelList.clip/fold/wrap/blend UGen conveniences) is exercised on '
-    'that kind only through the builtins function, not through the method.',
+    'that kind only through the builtins function, not through the method '
+    '- except the n-ary names of ChannelList on flat channel lists of plain '
+    'numbers with every argument given, where the unit-generator meaning is '
+    'the numeric operator per channel.',
     'Domain errors must agree in exception class only; when a stream could '
     'either end or raise at the same position both outcomes are accepted.',
     'wrap/fold: the bounds law is asserted for every argument mix; the '
@@ -851,6 +854,31 @@ def lift_case(draw):
             if TABLE[k].arity == arity and TABLE[k].src == src]
     row = draw(st.sampled_from(rows))
     listfn = draw(st.integers(0, 99)) < 8
+    if arity == 'nar' and src == 'm' and blocked(row, 'lst') and \
+       draw(st.integers(0, 2)) == 0:
+        # ChannelList gives these names a unit-generator meaning; on a flat
+        # channel list of plain numbers, with every argument spelled out
+        # (the defaults differ), that meaning is the numeric operator
+        # applied to each channel
+        flav = flavour(row)
+        recv = {'k': 'lst', 'top': 'chl',
+                'items': draw(st.lists(num_st(flav), min_size=1,
+                                       max_size=3))}
+        args = [recv]
+        # (positive bounds keep the exponential mappings inside their domain)
+        positive = draw(st.booleans())
+        for pname, *_ in row.params[:row.nreq + row.nopt]:
+            if pname == 'clip':
+                args.append({'k': 'lit', 'v': draw(st.sampled_from(CLIPMODES))})
+            elif positive:
+                args.append({'k': 'num', 'v': draw(st.sampled_from(
+                    [0.5, 1, 2, 4, 8, 3]))})
+            else:
+                args.append({'k': 'num', 'v': draw(num_st(flav))})
+        return {'expr': {'k': 'op', 'op': row.key, 'form': 'method',
+                         'args': args, 'chl_numbers': True},
+                'x': draw(plain_st(flav)), 'pmode': 'stream',
+                'seed': draw(st.integers(0, 65535))}
     if listfn:
         if row.arity == 'un':
             kinds = ['lst']
@@ -960,6 +988,29 @@ def table_cases(ctx):
                                'x': fx['x'],
                                'pmode': ['stream', 'iter', 'embed'][k % 3],
                                'seed': 1}
+    # the n-ary names ChannelList overrides, as methods of a flat channel
+    # list of plain numbers with every argument given: channels below,
+    # inside and above the input range, every clip mode
+    bounds = [1, 4, 2, 8, 3, 16, 5]
+    for key in ROWS:
+        row = TABLE[key]
+        if not (row.arity == 'nar' and row.src == 'm' and
+                blocked(row, 'lst')):
+            continue
+        names = [p for p, *_ in row.params[:row.nreq + row.nopt]]
+        for mode in (CLIPMODES if 'clip' in names else [None]):
+            for items in ([-3.0, 2.5, 9.0], [0.25], [4, 1, 6.5]):
+                k += 1
+                if k % ctx.nshards != ctx.shard:
+                    continue
+                args = [{'k': 'lst', 'top': 'chl', 'items': items}]
+                nums = iter(bounds)
+                for pname in names:
+                    args.append({'k': 'lit', 'v': mode} if pname == 'clip'
+                                else {'k': 'num', 'v': next(nums)})
+                yield {'expr': {'k': 'op', 'op': key, 'form': 'method',
+                                'args': args, 'chl_numbers': True},
+                       'x': 0, 'pmode': 'stream', 'seed': 1}
 
 
 # ===========================================================================
